@@ -629,8 +629,10 @@ class MergeEscapeParts(FnCase):
             else:
                 goals.append(('group_closes_on_a_closing_quote', And(closes, Length(M) == Length(M0) + 1)))
         out = []
+        # defining equation of the spec recursion esc_run at the position the closing-quote contract mentions (the lone quote has an empty run)
+        edefs = [esc_run_def(PS[self.head[2]], self.ES, Length(PS[self.head[2]]) - 2)] if getattr(self, 'head', None) is not None else []
         for nm, g in goals:
-            out.append((nm, g, {'prove': (lambda L_, q_, jn, g=g: (g, {'defs': flat_instances(SEP, [g] + list(q_.pc), PS)}))}))
+            out.append((nm, g, {'prove': (lambda L_, q_, jn, g=g: (g, {'defs': flat_instances(SEP, [g] + list(q_.pc), PS) + edefs}))}))
         return out
 
     def closing_quote_contract(self, eng, p, f, args, kws):
